@@ -3,10 +3,12 @@ package main
 import (
 	"fmt"
 	"go/ast"
+	"go/constant"
 	"go/token"
 	"go/types"
 	"golang.org/x/tools/go/packages"
 	"sort"
+	"strconv"
 	"strings"
 )
 
@@ -62,6 +64,12 @@ func (c *Ctx) collectFlagRegs() (regs []*flagReg, others int) {
 							}
 						}
 						r.fn = curFn
+						// the default is a parameter of the enclosing helper: one registration per call
+						// of the helper, with the value given there
+						if inst := c.flagRegsByParamDefault(p, fd, call, r); len(inst) > 0 {
+							regs = append(regs, inst...)
+							return true
+						}
 						regs = append(regs, r)
 					} else if fn := calleeOf(info, call); fn != nil && isPflagSet(fn) && isValueRegistrar(fn.Name()) {
 						others++
@@ -131,7 +139,7 @@ func (c *Ctx) flagRegOf(info *types.Info, call *ast.CallExpr) *flagReg {
 		r.flag = strings.Trim(tv.Value.ExactString(), `"`)
 	}
 	if tv, ok := info.Types[call.Args[defIdx]]; ok && tv.Value != nil {
-		r.def = tv.Value.ExactString()
+		r.def = constText(tv.Value)
 		r.isCons = true
 	} else {
 		r.def = c.canon(info, call.Args[defIdx], nil)
@@ -256,7 +264,7 @@ func checkC19(c *Ctx) {
 						val := "?"
 						if i < len(as.Rhs) {
 							if tv, ok := info.Types[as.Rhs[i]]; ok && tv.Value != nil {
-								val = tv.Value.ExactString()
+								val = constText(tv.Value)
 							}
 						}
 						fl, ln := c.pos(as.Pos())
@@ -394,6 +402,78 @@ func (c *Ctx) flagShadow(regs []*flagReg) {
 	c.Trivial("FLAGDEF-SHADOW", "scan", token.NoPos, fmt.Sprintf("%d registrations compared with the persistent options of their ancestors", n))
 }
 
+// flagRegsByParamDefault: registration `reg` inside helper fd takes its default from a parameter of
+// fd (addFlags(cmd, 0.3) ... FlagSet.Float64Var(&v, name, dflt, usage)). Returns one registration per
+// call of fd in the package, carrying the argument of that call as default (and the command given
+// there when the flag set belongs to a command parameter); nil when the default is no parameter.
+func (c *Ctx) flagRegsByParamDefault(p *packages.Package, fd *ast.FuncDecl, reg *ast.CallExpr, r *flagReg) []*flagReg {
+	info := p.TypesInfo
+	helper, _ := info.Defs[fd.Name].(*types.Func)
+	if helper == nil || r.isCons {
+		return nil
+	}
+	defIdx := 2
+	if strings.HasSuffix(r.method, "P") {
+		defIdx = 3
+	}
+	paramIdx := func(e ast.Expr) int {
+		o := identObj(info, e)
+		if o == nil {
+			return -1
+		}
+		for i := 0; ; i++ {
+			po := paramObj(info, fd, i)
+			if po == nil {
+				return -1
+			}
+			if po == o {
+				return i
+			}
+		}
+	}
+	dk := paramIdx(reg.Args[defIdx])
+	if dk < 0 {
+		return nil
+	}
+	cmdK := -1
+	if sel, ok := unparen(reg.Fun).(*ast.SelectorExpr); ok {
+		if inner, ok := unparen(sel.X).(*ast.CallExpr); ok {
+			if s2, ok := unparen(inner.Fun).(*ast.SelectorExpr); ok {
+				cmdK = paramIdx(s2.X)
+			}
+		}
+	}
+	var out []*flagReg
+	for _, f := range p.Syntax {
+		for _, d := range f.Decls {
+			cur := "<package initialiser>"
+			if d2, ok := d.(*ast.FuncDecl); ok {
+				cur = d2.Name.Name
+			}
+			ast.Inspect(d, func(n ast.Node) bool {
+				call, ok := n.(*ast.CallExpr)
+				if !ok || calleeOf(info, call) != helper || dk >= len(call.Args) {
+					return true
+				}
+				cp := *r
+				cp.call = reg
+				cp.fn = cur + "→" + fd.Name.Name
+				if tv, ok := info.Types[call.Args[dk]]; ok && tv.Value != nil {
+					cp.def, cp.isCons = constText(tv.Value), true
+				} else {
+					cp.def, cp.isCons = c.canon(info, call.Args[dk], nil), false
+				}
+				if cmdK >= 0 && cmdK < len(call.Args) {
+					cp.cmdVar = types.ExprString(call.Args[cmdK])
+				}
+				out = append(out, &cp)
+				return true
+			})
+		}
+	}
+	return out
+}
+
 // flagRegsThroughHelper: the registration call sits in helper fd and takes its storage, name and
 // default from the fields of the records the helper ranges over (a variadic/slice parameter of a
 // struct type). One registration is produced per record literal at every call of the helper.
@@ -499,7 +579,7 @@ func (c *Ctx) flagRegsThroughHelper(p *packages.Package, fd *ast.FuncDecl, reg *
 					}
 					if df, ok := flds[fDef]; ok {
 						if tv, ok := info.Types[df]; ok && tv.Value != nil {
-							r.def = tv.Value.ExactString()
+							r.def = constText(tv.Value)
 							r.isCons = true
 						} else {
 							r.def = c.canon(info, df, nil)
@@ -541,4 +621,14 @@ func localDefs(info *types.Info, body ast.Node, v types.Object) []ast.Expr {
 		return nil
 	}
 	return out
+}
+
+// constText: the text under which a constant default is compared and shown (floats in decimal form).
+func constText(v constant.Value) string {
+	if v.Kind() == constant.Float {
+		if f, ok := constant.Float64Val(v); ok {
+			return strconv.FormatFloat(f, 'g', -1, 64)
+		}
+	}
+	return v.ExactString()
 }
